@@ -47,8 +47,17 @@ def strategy_(draw):
         m['cfg']['tmp_dir'] = True
         spec['map'] = m
     else:
-        spec['ref'] = draw(pipeline.ref_dataset_specs(max_leaves=6))
+        # reference-marker discovery also on wider taxonomies (>=32 leaf pairs: the pairs-per-worker batch then depends
+        # on the worker count) and restricted to a gene list, as when it is run against a query
+        wide = stage == 'refm' and draw(st.booleans())
+        spec['ref'] = draw(pipeline.ref_dataset_specs(max_leaves=11 if wide else 6, min_leaves=9 if wide else 2,
+                                                      cells_per=6 if wide else None))
         spec['rows_at_a_time'] = draw(st.integers(5, 25))
+        if stage == 'refm':
+            ng = spec['ref']['n_genes']
+            spec['refm'] = {'n_valid': draw(st.sampled_from([3, 5, 10, 30])),
+                            'gene_list': (sorted(draw(st.lists(st.integers(0, ng - 1), min_size=3, max_size=ng, unique=True)))
+                                          if draw(st.booleans()) else None)}
     return spec
 
 
@@ -113,6 +122,10 @@ def prepare(d, spec):
     tmp.mkdir()
     if stage in ('refm', 'qmark'):
         pipeline.run_stats(d / 'ref.h5ad', h, d / 'stats.h5', tmp, n_processors=1, rows_at_a_time=1000)
+    if stage == 'refm' and spec.get('refm'):
+        a['n_valid'] = spec['refm']['n_valid']
+        if spec['refm']['gene_list'] is not None:
+            a['gene_list'] = [f'g{i}' for i in spec['refm']['gene_list']]
     if stage == 'qmark':
         pipeline.run_refmarkers(d / 'stats.h5', d / 'refm.h5', tmp, n_processors=1)
         a['genes'] = [f'g{i}' for i in range(rs['n_genes']) if i % 5]
@@ -199,7 +212,7 @@ def check(spec):
         elif stage in ('refm', 'qmark'):
             # marker discovery / selection promise results independent of the worker count altogether (C11, C12);
             # statistics sums are only promised "to rounding" across partitions (C09), so they are not compared here
-            for p in sorted({1, k + 1} - {k}):
+            for p in sorted(({1, 2, 3, 4, k + 1} if a.get('gene_list') else {1, k + 1}) - {k}):
                 got = stage_runner.run_stage(dict(a, n_processors=p, work=str(d / f'w_p{p}'), tag=f'p{p}'))
                 diff = differs(base, got)
                 if diff:
